@@ -12,7 +12,7 @@ for d in sorted(os.listdir(root)):
         continue
     prop = d.split('-')[0]
     out = subprocess.run(['/verif/tools/try_mutant.sh', os.path.join(p, 'patch.diff'), prop], capture_output=True, text=True).stdout
-    viol = re.findall(r'^VIOLATION .*obligation=(\S+)', out, re.M)
+    viol = [m or 'contract no longer matches the code (VC generation failed)' for m in re.findall(r'^VIOLATION [^\n]*?(?:obligation=(\S+))?(?: no-failing-input-found)?$', out, re.M)]
     summ = re.findall(r'^gocv: .*', out, re.M)
     notes = open(os.path.join(p, 'notes.txt')).read()
     meta_p = os.path.join(p, 'meta.json')
